@@ -101,7 +101,11 @@ class TwpRgeFinder:
                 # If there's a match on this regex pattern, this is not
                 # a match.
                 # (E.g., "...that part of Section 4 of T154N-R97W...")
-                if sec_twprge_in_between.search(substring) is not None:
+                # But a colon after the section means that what follows
+                # is its description (e.g., "Section 4: ALL of
+                # T154N-R97W" in S_DESC_TR layout), so that IS a match.
+                in_between_mo = sec_twprge_in_between.search(substring)
+                if in_between_mo is not None and in_between_mo['colon'] is None:
                     legit_match = False
 
             if legit_match:
